@@ -125,9 +125,13 @@ def finish(prop, tier, seed, reports, t0, level_text, assumptions, extra_cov=Non
             internal.append((rep.rule_id, rep.internal_error))
             continue
         nbad = 0
+        seen_inst = set()
         for inst in rep.instances:
-            obligations += 1
             full = "%s:%s" % (rep.rule_id, inst.key)
+            if (full, inst.ok) in seen_inst:
+                continue  # same obligation reached on several paths
+            seen_inst.add((full, inst.ok))
+            obligations += 1
             distinct.add(full)
             if inst.ok:
                 discharged += 1
